@@ -198,6 +198,16 @@ def run_thin(case, r):
             r.check(abs(res.distance - want) <= 1e-8 * max(1.0, abs(want)), f"C05/thin-unique-flux/{c04.mname(method)}/{form[0]}/{cond}", "on 1-D / one-cell-thin grids every method and mobility option returns the cost of the unique mass-conserving flux", d=res.distance, want=want, weight_ratio=res.weight_ratio, cfg=tag)
             r.nontriv(tag)
             r.outcome((tag, round(float(res.distance), 9)))
+            # the documented option `regularization` set to a visible value: it steers the mobility of the
+            # iteration, not the cost -- the distance is still the cost of the (unique) flux, and d(m, m) = 0
+            if mk != "dense" and ni == case["num_iters"][-1] and form[0] == "full" and (l1, mob) == modes[0]:
+                for l1r in Wh.L1_MODES:
+                    orr = dict(c04.opts_for(method, l1r, "CELL_BASED", form, 0, ni), regularization=2.0**-10)
+                    rr = dist(method, shape, vs, a, b, orr)
+                    wantr = ref.cost(u, l1r)
+                    r.check(rr.exc is None and abs(rr.distance - wantr) <= 1e-8 * max(1.0, abs(wantr)), f"C05/thin-unique-flux/{c04.mname(method)}/regularization-option", "with a visible `regularization` the distance is still the cost of the unique mass-conserving flux", d=None if rr.exc else rr.distance, want=wantr, l1=l1r, cfg=tag)
+                    r0 = dist(method, shape, vs, a, a.copy(), orr)
+                    r.check(r0.exc is None and r0.distance == 0.0, f"C05/identity/{c04.mname(method)}/regularization-option", "d(m, m) = 0 also with a visible `regularization`", d=None if r0.exc else r0.distance, l1=l1r, cfg=tag)
 
 
 # ----------------------------------------------------------- discrete minimum (Kelley)
